@@ -56,6 +56,11 @@ def _optimize(
 
     progress_bar = pbar_module._ProgressBar(show_progress_bar, n_trials, timeout)
 
+    if callbacks is not None:
+        # The callbacks are invoked after every trial: a one-shot iterable (an iterator or a
+        # generator) would be exhausted by the first one.
+        callbacks = list(callbacks)
+
     study._stop_flag = False
 
     try:
